@@ -8,6 +8,8 @@ mod c03;
 mod c04;
 mod c05;
 mod c06;
+mod c07;
+mod c28;
 mod components;
 mod mutants;
 mod c29;
@@ -32,6 +34,8 @@ fn main() {
         "C04" => c04::run(&args),
         "C05" => c05::run(&args),
         "C06" => c06::run(&args),
+        "C07" => c07::run(&args),
+        "C28" => c28::run(&args),
         "C29" => c29::run(&args),
         p => mck::report::machinery(&format!("h_stark does not serve property {p:?}")),
     }
